@@ -1235,9 +1235,8 @@ def audit(out: OutputBuffer, aconf: AuditConf, sshv: Optional[int] = None, print
                 payload_txt = '"{}"'.format(repr(payload).lstrip('b')[1:-1])
             if payload_txt == 'Protocol major versions differ.':
                 if sshv == 2 and aconf.ssh1:
-                    ret = audit(out, aconf, 1)
-                    out.write()
-                    return ret
+                    # The caller writes the buffered output (writing it here would print an SSH1 target's report outside of its place in a multi-target run).
+                    return audit(out, aconf, 1, print_target=print_target)
             err = '[exception] error reading packet ({})'.format(payload_txt)
         else:
             err_pair = None
@@ -1254,7 +1253,7 @@ def audit(out: OutputBuffer, aconf: AuditConf, sshv: Optional[int] = None, print
         out.fail(err)
         return exitcodes.CONNECTION_ERROR
     if sshv == 1:
-        program_retval = output(out, aconf, banner, header, pkm=SSH1_PublicKeyMessage.parse(payload))
+        program_retval = output(out, aconf, banner, header, pkm=SSH1_PublicKeyMessage.parse(payload), print_target=print_target)
     elif sshv == 2:
         try:
             kex = SSH2_Kex.parse(out, payload)
